@@ -241,7 +241,10 @@ pub fn run_case(o: &mut Outcome, case: &Value) {
     let ctl: i64 = case["control_amount"].as_i64().unwrap_or(3).min(rc.cust as i64);
     amounts.push(ctl);
     for (k, a) in amounts.iter().enumerate() {
-        let a = (*a).min(rc.cust as i64).max(-(rc.merch as i64));
+        // keep the honest payment admissible: both results within [0, 2^63-1]
+        let room_c = (i64::MAX as u64 - rc.cust) as i64;
+        let room_m = (i64::MAX as u64 - rc.merch) as i64;
+        let a = (*a).min(rc.cust as i64).min(room_m).max(-(rc.merch as i64)).max(-room_c);
         if !pay_honest(&mut rc, a, &template, &mut s, seed, &format!("h{}", k), o) {
             if o.violations.is_empty() {
                 // the library's own honest proof? (layout drift vs. broken completeness)
@@ -258,7 +261,11 @@ pub fn run_case(o: &mut Outcome, case: &Value) {
     // ---- the attack on the next payment
     o.nontrivial = true;
     let amount: i64 = case["amount"].as_i64().unwrap_or(5);
-    let amount = if amount >= 0 { amount.min(rc.cust as i64) } else { amount.max(-(rc.merch as i64)) };
+    let amount = if amount >= 0 {
+        amount.min(rc.cust as i64).min((i64::MAX as u64 - rc.merch) as i64)
+    } else {
+        amount.max(-(rc.merch as i64)).max(-((i64::MAX as u64 - rc.cust) as i64))
+    };
     let (mut h, _newlock, _nn) = honest_pay_hidden(&rc, amount, &mut s);
     let ndig = digit_count(&template);
     h.digits = ndig;
